@@ -74,6 +74,10 @@ func (e *Env) editParent(which int) string {
 				spec["replicas"] = n - 1
 			}
 			desc = fmt.Sprintf("replicas=%d", spec["replicas"])
+		case 5:
+			// back to the template the rollout started from (a rollback)
+			spec["template"].(map[string]any)["v"] = "v1"
+			desc = "template.v=v1 (rollback)"
 		}
 	})
 	return desc
@@ -263,6 +267,9 @@ func PropC08(c *vs.Case, f Factory, o RolloutOpts) error {
 		which := 1
 		if o.Scale && c.Bool() {
 			which = 3 + c.Int(2)
+		} else if c.Prob(1, 3) {
+			which = 5
+			c.Class("rollback-mid-rollout")
 		}
 		log = append(log, "edit "+env.editParent(which))
 	}
